@@ -25,47 +25,15 @@ Hypotheses and where they come from
     failure on a forest with `wfKeys = true` as a violation).
 * `Denotes reg ctx pfx t`: the property's "module that imports the needed prefixes".
 
+The concrete forest of the non-vacuity examples (`exReg`, `exF`: two modules, b imports a as `qa`;
+an rpc with input only, a choice with an implicit case) is `Goyang.Lemmas.Find.Example`.
+
 Everything is proved for all registries, forests, start nodes, targets and spellings; nothing is
 left `_partial`.  Axioms: propext, Classical.choice, Quot.sound (via `simp`/`omega` and the
 Batteries string lemmas).
 -/
 namespace Goyang.Props.C17
-open Goyang.Model Goyang.Spec.Find Goyang.Lemmas.Find
-
-/-! ### a concrete forest: two modules, an rpc, a choice with an implicit case -/
-
-def st (kw arg : String) (subs : List Stmt := []) : Stmt := .mk kw true arg "ex.yang" 1 1 subs
-/-- `module a { namespace "urn:a"; prefix pa; … }` -/
-def modA : Stmt := st "module" "a" [st "namespace" "urn:a", st "prefix" "pa"]
-/-- `module b { namespace "urn:b"; prefix pb; import a { prefix qa; } … }` -/
-def modB : Stmt := st "module" "b" [st "namespace" "urn:b", st "prefix" "pb", st "import" "a" [st "prefix" "qa"]]
-def exReg : Registry := { mods := [⟨0, modA⟩, ⟨1, modB⟩], modules := [("a", 0), ("b", 1)] }
-
-def leaf (n : String) : Entry := .mk { name := n, kind := .leaf, hasDir := false } [] [] []
-def dirE (n : String) (k : Kind) (c : List Entry) : Entry := .mk { name := n, kind := k } c [] []
-
-/-- a: container c { leaf x }, choice ch { (implicit case x0) leaf x0 }, rpc r { input { leaf i } } (no output) -/
-def treeA : Entry :=
-  dirE "a" .directory [
-    dirE "c" .directory [leaf "x"],
-    dirE "ch" .choice [dirE "x0" .case_ [leaf "x0"]],
-    .mk { name := "r", isRpc := true } [] [.mk { name := "input", kind := .input } [leaf "i"] [] []] []]
-/-- b: leaf y, container k { leaf z } -/
-def treeB : Entry := dirE "b" .directory [leaf "y", dirE "k" .directory [leaf "z"]]
-def exF : Forest := { trees := [(0, treeA), (1, treeB)] }
-
-theorem exF_wf : WFForest exF := by
-  constructor
-  · decide
-  · intro it hit
-    have : wfForest exF = true := by decide
-    simp only [wfForest, Bool.and_eq_true, List.all_eq_true] at this
-    exact this.2 it hit
-
-/-- In module b the prefix `qa` denotes module a (tree 0); its own prefix `pb` denotes b. -/
-theorem exReg_qa : Denotes exReg 1 "qa" 0 := ⟨⟨1, modB⟩, ⟨0, modA⟩, ⟨0, modA⟩, by rfl, by rfl, by rfl, rfl⟩
-theorem exReg_pb : Denotes exReg 1 "pb" 1 := ⟨⟨1, modB⟩, ⟨1, modB⟩, ⟨1, modB⟩, by rfl, by rfl, by rfl, rfl⟩
-theorem good_qa : GoodPrefix "qa" := ⟨by decide, by decide, by decide⟩
+open Goyang.Model Goyang.Spec.Find Goyang.Lemmas.Find Goyang.Lemmas.Find.Example
 
 /-! ### absolute paths -/
 
@@ -230,8 +198,6 @@ theorem find_above_root (reg : Registry) (f : Forest) (t ctx : Nat) (post : List
 /-- The empty path returns nothing. -/
 theorem find_empty (reg : Registry) (f : Forest) (start : Loc) (ctx : Nat) :
     find reg f start ctx "" = (none, f) := by simp [find]
-
-theorem bogus_split : splitPrefix "qa:bogus" = ("qa", "bogus") := splitPrefix_pfx "qa" "bogus" (by decide) (by decide)
 
 /-- Non-vacuity (the defect D17 repaired by ec88a45): `/qa:r/qa:bogus/qa:i` — a step other than
 input/output below the rpc — finds nothing. -/
